@@ -79,6 +79,12 @@ func (x *run) macro1(m macro) {
 		if x.act(j) && x.jst[m.c] != "idle" {
 			x.act("s" + c)
 		}
+	case "K":
+		k := "K" + c
+		if m.a >= 0 {
+			k += "@" + strconv.Itoa(m.a)
+		}
+		x.act(k)
 	case "EJ":
 		x.act("Ej" + c)
 	case "LU", "LE", "LX":
@@ -173,7 +179,7 @@ func enumMacros(alpha []macro, addrs []int, maxLen int, f func([]macro)) {
 				return
 			}
 			for _, m := range alpha {
-				isJ, isL := m.op[0] == 'J', m.op[0] == 'L'
+				isJ, isL := m.op[0] == 'J' || m.op[0] == 'K', m.op[0] == 'L'
 				if len(seq) == 0 && (!isJ || (symmetric && m.c != 0)) {
 					continue
 				}
